@@ -38,6 +38,23 @@ type Layout struct {
 func (l Layout) hashMap(k int) uint64   { return (l.Tag(k)&0xfffff)<<44 | (l.Bucket(k) & 0xffffffff) }
 func (l Layout) hashMapOf(k int) uint64 { return (l.Bucket(k)&0xffffffff)<<7 | (l.Tag(k) & 0x7f) }
 
+// Every table generation of a container gets its own seed (1, 2, 3, ...), and the in-bucket tag of a key
+// depends on it (the bucket does not: the designed bucket relations hold in every generation; the first
+// generation has exactly the designed tags). A hash computed for one table and used on another one puts
+// the entry where lookups with the right hash do not find it.
+func seedSequence() func() uint64 {
+	n := uint64(0)
+	return func() uint64 { n++; return n }
+}
+
+func (l Layout) hashMapSeeded(k int, seed uint64) uint64 {
+	return l.hashMap(k) ^ (((seed-1)*0x9E37)&0xfffff)<<44
+}
+
+func (l Layout) hashMapOfSeeded(k int, seed uint64) uint64 {
+	return l.hashMapOf(k) ^ ((seed-1)*37)&0x7f
+}
+
 // emptyKeyZero makes key index 0 the empty string (used by the jobs that run the real hash functions).
 var emptyKeyZero bool
 
@@ -175,20 +192,20 @@ func (a mapAdapter) Chain(b int) []string  { return a.m.VerifChain(b) }
 func (a mapAdapter) RootBuckets() int      { return a.m.VerifRootBuckets() }
 
 func newMapAdapter(l Layout, opts ...func(*xsync.MapConfig)) MapLike {
-	xsync.VerifSeed = func() uint64 { return 1 }
-	xsync.VerifHashString = func(s string, _ uint64) uint64 { return l.hashMap(keyIndex(s)) }
+	xsync.VerifSeed = seedSequence()
+	xsync.VerifHashString = func(s string, seed uint64) uint64 { return l.hashMapSeeded(keyIndex(s), seed) }
 	return mapAdapter{m: xsync.NewMap(opts...)}
 }
 
 func newMapAdapterP(l Layout, opts ...func(*xsync.MapConfig)) MapLike {
-	xsync.VerifSeed = func() uint64 { return 1 }
-	xsync.VerifHashString = func(s string, _ uint64) uint64 { return l.hashMap(keyIndex(s)) }
+	xsync.VerifSeed = seedSequence()
+	xsync.VerifHashString = func(s string, seed uint64) uint64 { return l.hashMapSeeded(keyIndex(s), seed) }
 	return mapAdapter{m: xsync.NewMap(opts...), box: boxP, unbox: unboxP}
 }
 
 func newMapOfIntP(l Layout, opts ...func(*xsync.MapConfig)) MapLike {
-	xsync.VerifSeed = func() uint64 { return 1 }
-	h := func(k int, _ uint64) uint64 { return l.hashMapOf(k) }
+	xsync.VerifSeed = seedSequence()
+	h := func(k int, seed uint64) uint64 { return l.hashMapOfSeeded(k, seed) }
 	return mapOfAdapter[int, *payload]{
 		m:   xsync.NewMapOfWithHasher[int, *payload](h, opts...),
 		toK: func(k int) int { return k }, fromK: func(k int) int { return k },
@@ -250,8 +267,8 @@ type structKey struct {
 }
 
 func newMapOfIntInt(l Layout, opts ...func(*xsync.MapConfig)) MapLike {
-	xsync.VerifSeed = func() uint64 { return 1 }
-	h := func(k int, _ uint64) uint64 { return l.hashMapOf(k) }
+	xsync.VerifSeed = seedSequence()
+	h := func(k int, seed uint64) uint64 { return l.hashMapOfSeeded(k, seed) }
 	return mapOfAdapter[int, int]{
 		m:   xsync.NewMapOfWithHasher[int, int](h, opts...),
 		toK: func(k int) int { return k }, fromK: func(k int) int { return k },
@@ -260,8 +277,8 @@ func newMapOfIntInt(l Layout, opts ...func(*xsync.MapConfig)) MapLike {
 }
 
 func newMapOfStrStr(l Layout, opts ...func(*xsync.MapConfig)) MapLike {
-	xsync.VerifSeed = func() uint64 { return 1 }
-	h := func(k string, _ uint64) uint64 { return l.hashMapOf(keyIndex(k)) }
+	xsync.VerifSeed = seedSequence()
+	h := func(k string, seed uint64) uint64 { return l.hashMapOfSeeded(keyIndex(k), seed) }
 	return mapOfAdapter[string, string]{
 		m:   xsync.NewMapOfWithHasher[string, string](h, opts...),
 		toK: keyName, fromK: keyIndex,
@@ -285,8 +302,8 @@ func newMapOfStrStr(l Layout, opts ...func(*xsync.MapConfig)) MapLike {
 }
 
 func newMapOfStructInt(l Layout, opts ...func(*xsync.MapConfig)) MapLike {
-	xsync.VerifSeed = func() uint64 { return 1 }
-	h := func(k structKey, _ uint64) uint64 { return l.hashMapOf(int(k.A)) }
+	xsync.VerifSeed = seedSequence()
+	h := func(k structKey, seed uint64) uint64 { return l.hashMapOfSeeded(int(k.A), seed) }
 	return mapOfAdapter[structKey, int]{
 		m:   xsync.NewMapOfWithHasher[structKey, int](h, opts...),
 		toK: func(k int) structKey { return structKey{int32(k), fmt.Sprint("s", k)} }, fromK: func(k structKey) int { return int(k.A) },
